@@ -219,8 +219,40 @@ func checkC13(p *Prog, r *Report) {
 
 // deadlineLoadIn: nodes of fi that load an atomic.Value field and assert time.Time.
 func isDeadlineLoad(p *Prog, n ast.Node) (*types.Var, bool) {
+	return isDeadlineLoadDepth(p, n, 0)
+}
+
+func isDeadlineLoadDepth(p *Prog, n ast.Node, depth int) (*types.Var, bool) {
 	var fld *types.Var
 	inspectShallow(n, func(x ast.Node) bool {
+		// an accessor: d, ok := l.acceptDeadline(), whose body loads the deadline and returns what it loaded first
+		if hc, isCall := x.(*ast.CallExpr); isCall && depth == 0 {
+			if f := p.Callee(hc); f != nil && f.Pkg() == p.Types && !f.Exported() {
+				if h := p.FuncOf(f); h != nil && h.Body != nil && len(h.Body.List) <= 4 {
+					var hf *types.Var
+					var dv *types.Var
+					okRet := true
+					for _, st := range h.Body.List {
+						if as, isAs := st.(*ast.AssignStmt); isAs && len(as.Lhs) >= 1 {
+							if ff, isL := isDeadlineLoadDepth(p, as, 1); isL {
+								hf = ff
+								dv = identVar(p, as.Lhs[0])
+							}
+						}
+						if rs, isR := st.(*ast.ReturnStmt); isR {
+							if len(rs.Results) == 0 || dv == nil {
+								okRet = false
+							} else if t := p.Term(rs.Results[0]); !(t.Op == "var" && t.Obj == types.Object(dv)) {
+								okRet = false
+							}
+						}
+					}
+					if hf != nil && okRet {
+						fld = hf
+					}
+				}
+			}
+		}
 		ta, ok := x.(*ast.TypeAssertExpr)
 		if !ok || ta.Type == nil {
 			return true
@@ -1004,6 +1036,29 @@ func checkCloseBroadcast(p *Prog, r *Report) {
 				}
 				inOnce = uses > 0 && uses == okUses
 			}
+			if !inOnce && fi.Lit == nil {
+				// a helper whose single call site lies inside the literal handed to <onceField>.Do
+				cur := fi
+				for k := 0; k < 3 && !inOnce; k++ {
+					caller, _, okC := p.singleCaller(cur)
+					if !okC {
+						break
+					}
+					if caller.Lit != nil {
+						if pc, ok := p.parents[caller.Lit].(*ast.CallExpr); ok {
+							if f := p.Callee(pc); f != nil && isExtFunc(f, "sync", "Once", "Do") {
+								if sel, ok := ast.Unparen(pc.Fun).(*ast.SelectorExpr); ok {
+									if ot := p.Term(sel.X); ot.Op == "fld" && ot.Obj.Name() == onceField {
+										inOnce = true
+									}
+								}
+							}
+						}
+						break
+					}
+					cur = caller
+				}
+			}
 			if !inOnce {
 				r.bad("C13.W6", rootFuncInfo(fi).Name, p.Pos(call), construct, "the channel is closed outside "+onceField+".Do (a second close panics / the broadcast is not once-only)", "")
 				return true
@@ -1069,36 +1124,7 @@ func checkCloseBroadcast(p *Prog, r *Report) {
 			if v == nil {
 				continue
 			}
-			// v set to true only in a literal passed to Once.Do
-			onlyInDo := true
-			nSet := 0
-			ast.Inspect(fi.Body, func(n ast.Node) bool {
-				as, isAs := n.(*ast.AssignStmt)
-				if !isAs {
-					return true
-				}
-				for i, l := range as.Lhs {
-					if id, isId := l.(*ast.Ident); isId && p.Info.Uses[id] == v && i < len(as.Rhs) {
-						if p.Term(as.Rhs[i]).Op == "true" {
-							nSet++
-							encl := p.EnclosingFunc(as)
-							inDo := false
-							if encl != nil && encl.Lit != nil {
-								if pc, ok := p.parents[encl.Lit].(*ast.CallExpr); ok {
-									if f := p.Callee(pc); f != nil && isExtFunc(f, "sync", "Once", "Do") {
-										inDo = true
-									}
-								}
-							}
-							if !inDo {
-								onlyInDo = false
-							}
-						}
-					}
-				}
-				return true
-			})
-			if nSet == 0 || !onlyInDo {
+			if !p.isOnceFlag(fi, v, 0) {
 				continue
 			}
 			// the "not first" successor returns a non-nil error
@@ -1189,10 +1215,11 @@ func checkAfterClose(p *Prog, r *Report, waits []*waitFunc) {
 		case "(*UDPSession).WriteBuffers":
 			send := p.Method("KCP", "Send")
 			for _, s := range p.CallsTo(send) {
-				if s.Fn != w.fi {
+				at, part := p.liftInto(s.Fn, s.Call, w.fi)
+				if !part {
 					continue
 				}
-				sp, _ := c.PointOf(s.Call)
+				sp, _ := c.PointOf(at)
 				// a select with default that has a die arm returning an error must lie on every path entry -> Send
 				res := c.FindPath(PathQuery{From: Point{c.Entry(), 0}, IsTarget: func(_ ast.Node, q Point) bool { return q == sp }, IsBarrier: func(n ast.Node, q Point) bool {
 					cc, ok := p.parents[n].(*ast.CommClause)
@@ -1386,6 +1413,19 @@ func checkReadErrorReporting(p *Prog, r *Report) {
 		})
 	}
 	walk(lf)
+	if !okProp {
+		// the body moved into a helper of the listener that notifyReadError (its literal) calls
+		ast.Inspect(lf.Body, func(x ast.Node) bool {
+			if call, ok := x.(*ast.CallExpr); ok {
+				if f := p.Callee(call); f != nil && f.Pkg() == p.Types && !f.Exported() && recvTypeName(f) == "Listener" {
+					if h := p.FuncOf(f); h != nil && h.Body != nil && h != lf {
+						walk(h)
+					}
+				}
+			}
+			return true
+		})
+	}
 	r.check(okProp, "C13.W9", lf.Name, p.Pos(lf.Node), "propagation to accepted sessions", "range over Listener.sessions calling notifyReadError", "the listener's socket error is not propagated to the sessions that share its socket: their blocked Reads never return")
 }
 
@@ -1646,4 +1686,89 @@ func checkWriteErrorReporting(p *Prog, r *Report) {
 	if n == 0 {
 		r.bad("C13.W11", "transmit functions", "-", "failed socket write", "no transmit function with an error test found", "")
 	}
+}
+
+// isOnceFlag: the boolean v of fi tells "this call fired the Once": it is set to true only inside a function
+// literal handed to <once>.Do, or it is bound to the result of an unexported helper whose returned variable is
+// such a flag (func (s *T) signalDie() (first bool) { s.once.Do(func(){ …; first = true }); return first }).
+func (p *Prog) isOnceFlag(fi *FuncInfo, v *types.Var, depth int) bool {
+	onlyInDo := true
+	nSet := 0
+	ast.Inspect(fi.Body, func(n ast.Node) bool {
+		as, isAs := n.(*ast.AssignStmt)
+		if !isAs {
+			return true
+		}
+		for i, l := range as.Lhs {
+			if id, isId := l.(*ast.Ident); isId && p.Info.Uses[id] == v && i < len(as.Rhs) {
+				if p.Term(as.Rhs[i]).Op == "true" {
+					nSet++
+					encl := p.EnclosingFunc(as)
+					inDo := false
+					if encl != nil && encl.Lit != nil {
+						if pc, ok := p.parents[encl.Lit].(*ast.CallExpr); ok {
+							if f := p.Callee(pc); f != nil && isExtFunc(f, "sync", "Once", "Do") {
+								inDo = true
+							}
+						}
+					}
+					if !inDo {
+						onlyInDo = false
+					}
+				}
+			}
+		}
+		return true
+	})
+	if nSet > 0 {
+		return onlyInDo
+	}
+	if depth > 1 {
+		return false
+	}
+	as := p.Assignments(fi, v)
+	if len(as) != 1 || as[0].Rhs == nil {
+		return false
+	}
+	call, ok := ast.Unparen(as[0].Rhs).(*ast.CallExpr)
+	if !ok {
+		return false
+	}
+	f := p.Callee(call)
+	if f == nil || f.Pkg() != p.Types || f.Exported() {
+		return false
+	}
+	h := p.FuncOf(f)
+	if h == nil || h.Body == nil || h.Decl == nil {
+		return false
+	}
+	var rv *types.Var
+	okAll := true
+	inspectBody(h, func(x ast.Node) bool {
+		rs, isR := x.(*ast.ReturnStmt)
+		if !isR {
+			return true
+		}
+		if len(rs.Results) == 0 {
+			return true
+		}
+		if len(rs.Results) != 1 {
+			okAll = false
+			return true
+		}
+		if t := p.Term(rs.Results[0]); t.Op == "var" {
+			x, _ := t.Obj.(*types.Var)
+			if rv != nil && rv != x {
+				okAll = false
+			}
+			rv = x
+		} else {
+			okAll = false
+		}
+		return true
+	})
+	if rv == nil && h.Decl.Type.Results != nil && len(h.Decl.Type.Results.List) == 1 && len(h.Decl.Type.Results.List[0].Names) == 1 {
+		rv, _ = p.Info.Defs[h.Decl.Type.Results.List[0].Names[0]].(*types.Var)
+	}
+	return okAll && rv != nil && p.isOnceFlag(h, rv, depth+1)
 }
